@@ -499,7 +499,10 @@ func (r *vpRecPoll) Close() error   { return r.p.Close() }
 func (r *vpRecPoll) Trigger() error { return r.p.Trigger() }
 func (r *vpRecPoll) Control(op *FDOperator, ev PollEvent) error {
 	if ev == PollDetach {
-		r.rec.add(r.ids[op], "D", 0, false, atomic.LoadInt32(&op.state))
+		vrMapMu.Lock()
+		id := r.ids[op]
+		vrMapMu.Unlock()
+		r.rec.add(id, "D", 0, false, atomic.LoadInt32(&op.state))
 	}
 	return r.p.Control(op, ev)
 }
